@@ -199,9 +199,9 @@ Qed.
 Definition opt_leaf (o : option S.json) : Prop := match o with Some j => leaf j | None => True end.
 Lemma spec_scalar_opt_leaf k a : opt_leaf (S.spec_scalar k a).
 Proof.
-  destruct k, a; cbn [S.spec_scalar S.is64 opt_leaf leaf]; try exact I;
-    destruct (f64_is_nan bits); try exact I; destruct (bits =? f64_pos_inf); try exact I;
-    destruct (bits =? f64_neg_inf); exact I.
+  destruct k, a; cbn [S.spec_scalar S.is64 opt_leaf leaf];
+    try (destruct (f64_is_nan bits); [|destruct (bits =? f64_pos_inf); [|destruct (bits =? f64_neg_inf)]]);
+    exact I.
 Qed.
 Lemma spec_scalar_leaf k a j : S.spec_scalar k a = Some j -> leaf j.
 Proof. intros E. pose proof (spec_scalar_opt_leaf k a) as H. rewrite E in H. exact H. Qed.
@@ -269,3 +269,86 @@ Qed.
 Example model_duration_not_canonical_whole_seconds :
   Model.Time.delta_to_json 5000000 = [x35; x2e; x30; x30; x30; x73] /\ dur_json 5 0 = [x35; x73].
 Proof. split; vm_compute; reflexivity. Qed.
+
+
+(* ====================================================================================== *)
+(* the message-level statements (PENDING as theorems; evaluated by the harness on every     *)
+(* generated message, and on the instance below)                                            *)
+(* ====================================================================================== *)
+(* C05_emit, executable form: the text of to_json(m) is accepted by the reference parser (as specified)
+   and denotes ...; the harness compares the result with the abstract value of m *)
+Definition model_emit_accepts (sc : schema) (js : S.jschema) (c : nat) (o : obj) : option S.aval :=
+  match conv (J.text_rt (J.to_dict J.CAMEL false sc o)) with
+  | Some j => S.json_accepts js c j
+  | None => None
+  end.
+(* C05_accept, executable form: the canonical JSON of a, read by Cls.from_dict and written again, denotes a
+   (cls = index of the class in the model's table, c = index in the spec's table) *)
+Definition model_reads_canonical (sc : schema) (js : S.jschema) (c cls : nat) (a : S.aval) : option S.aval :=
+  match S.json_spec js c a with
+  | Some j => match J.from_dict_cls sc cls (unconv j) with
+              | Ok o => model_emit_accepts sc js c o
+              | Err _ => None
+              end
+  | None => None
+  end.
+
+Module Ex.
+Import S.
+Definition ex_sc : schema := (mkS (builtin_classes ++ [(mkC [(mkF [x62; x69; x67] (1)%Z TInt64 None None None false (HPlain PyInt) 0%nat);
+      (mkF [x64; x61; x74; x61] (2)%Z TBytes None None None true (HOptional PyBytes) 0%nat);
+      (mkF [x63; x6f; x6c; x6f; x72] (3)%Z TEnum None None None false (HPlain (PyEnum 0)) 0%nat);
+      (mkF [x61; x74] (4)%Z TMessage None None None false (HPlain PyDatetime) 0%nat);
+      (mkF [x73; x70; x61; x6e] (5)%Z TMessage None None None false (HPlain PyTimedelta) 0%nat);
+      (mkF [x78; x73] (6)%Z TDouble None None None false (HList PyFloat) 0%nat);
+      (mkF [x62; x79; x5f; x69; x64] (7)%Z TMap (Some (TInt32, TUInt64)) None None false (HDict PyInt PyInt) 12%nat);
+      (mkF [x77; x72; x61; x70; x70; x65; x64] (8)%Z TMessage None None (Some TUInt64) false (HOptional PyInt) 0%nat);
+      (mkF [x63; x68; x69; x6c; x64] (9)%Z TMessage None None None false (HPlain (PyMsg 11)) 0%nat);
+      (mkF [x70; x69; x63; x6b; x5f; x61] (10)%Z TString None (Some 0%nat) None false (HPlain PyStr) 0%nat);
+      (mkF [x70; x69; x63; x6b; x5f; x62] (11)%Z TSInt64 None (Some 0%nat) None false (HPlain PyInt) 0%nat);
+      (mkF [x66; x6c; x61; x67; x5f; x32] (12)%Z TBool None None None false (HPlain PyBool) 0%nat)] 1%nat);
+    (mkC [(mkF [x6b; x65; x79] 1%Z TInt32 None None None false (HPlain PyInt) 0%nat); (mkF [x76; x61; x6c; x75; x65] 2%Z TUInt64 None None None false (HPlain PyInt) 0%nat)] 0%nat)]) [(mkE [([x5a; x45; x52; x4f], (0)%Z); ([x4f; x4e; x45], (1)%Z); ([x4e; x45; x47], (-1)%Z)])]) .
+Definition ex_js : S.jschema := (mkJS [[(mkJF [x62; x69; x67] [x62; x69; x67] (JScalar KInt64) Implicit None);
+    (mkJF [x64; x61; x74; x61] [x64; x61; x74; x61] (JScalar KBytes) Explicit None);
+    (mkJF [x63; x6f; x6c; x6f; x72] [x63; x6f; x6c; x6f; x72] (JEnum 0%nat) Implicit None);
+    (mkJF [x61; x74] [x61; x74] JTimestamp Explicit None);
+    (mkJF [x73; x70; x61; x6e] [x73; x70; x61; x6e] JDuration Explicit None);
+    (mkJF [x78; x73] [x78; x73] (JScalar KDouble) Repeated None);
+    (mkJF [x62; x79; x5f; x69; x64] [x62; x79; x49; x64] (JScalar KUInt64) (MapOf KInt32) None);
+    (mkJF [x77; x72; x61; x70; x70; x65; x64] [x77; x72; x61; x70; x70; x65; x64] (JWrapper KUInt64) Explicit None);
+    (mkJF [x63; x68; x69; x6c; x64] [x63; x68; x69; x6c; x64] (JMsg 0%nat) Explicit None);
+    (mkJF [x70; x69; x63; x6b; x5f; x61] [x70; x69; x63; x6b; x41] (JScalar KString) Explicit (Some 0%nat));
+    (mkJF [x70; x69; x63; x6b; x5f; x62] [x70; x69; x63; x6b; x42] (JScalar KSInt64) Explicit (Some 0%nat));
+    (mkJF [x66; x6c; x61; x67; x5f; x32] [x66; x6c; x61; x67; x32] (JScalar KBool) Implicit None)]] [[([x5a; x45; x52; x4f], (0)%Z); ([x4f; x4e; x45], (1)%Z); ([x4e; x45; x47], (-1)%Z)]]) .
+Definition ex_obj : obj := (Obj 11%nat [(PInt (-9223372036854775808)); (PBytes [xfb; xff]); (PInt (7)); (PDatetime (1583020799250000)); (PTimedelta (-1)); (PList [(PFloat (9218868437227405312)); (PFloat (9223372036854775808)); (PFloat (4609434218613702656))]); (PDict [((PInt (-5)), (PInt (18446744073709551615))); ((PInt (7)), (PInt (0)))]); (PInt (9223372036854775808)); (PMsg (Obj 11%nat [PPlaceholder; PNone; (PInt (-1)); PPlaceholder; PPlaceholder; PPlaceholder; PPlaceholder; PPlaceholder; PPlaceholder; PPlaceholder; (PInt (-3)); (PBool true)] true [] [(Some 10%nat)])); (PStr []); PPlaceholder; PPlaceholder] true [] [(Some 9%nat)]) .
+Definition ex_aval : S.aval := (AMsg [(FOne (AInt (-9223372036854775808))); (FOne (ABytes [xfb; xff])); (FOne (AEnum (7))); (FOne (ATime (1583020799) (250000000))); (FOne (ADur (0) (-1000))); (FRep [(AFloat (9218868437227405312)); (AFloat (9223372036854775808)); (AFloat (4609434218613702656))]); (FMap [((AInt (-5)), (AInt (18446744073709551615))); ((AInt (7)), (AInt (0)))]); (FOne (AInt (9223372036854775808))); (FOne (AMsg [(FOne (AInt (0))); FAbsent; (FOne (AEnum (-1))); FAbsent; FAbsent; (FRep []); (FMap []); FAbsent; FAbsent; FAbsent; (FOne (AInt (-3))); (FOne (ABool true))])); (FOne (AStr [])); FAbsent; (FOne (ABool false))]) .
+(* betterproto: {"big": "-9223372036854775808", "data": "+/8=", "color": 7, "at": "2020-02-29T23:59:59.250Z", "span": "-0.000001s", "xs": ["Infinity", -0.0, 1.5], "byId": {"-5": "18446744073709551615", "7": "0"}, "wrapped": "9223372036854775808", "child": {"color": "NEG", "pickB": "-3", "flag2": true}, "pickA": ""} *)
+(* reference: { "big": "-9223372036854775808", "data": "+/8=", "color": 7, "at": "2020-02-29T23:59:59.250Z", "span": "-0.000001s", "xs": [ "Infinity", -0.0, 1.5 ], "byId": { "-5": "18446744073709551615", "7": "0" }, "wrapped": "9223372036854775808", "child": { "color": "NEG", "pickB": "-3", "flag2": true }, "pickA": "" } *)
+
+End Ex.
+
+(* one message with every leaf form: 64-bit extremes, base64 with "+/", an enum number without a name, an RFC 3339
+   timestamp on a leap day with 3 fractional digits, a negative microsecond duration, "Infinity" and -0.0 in a repeated
+   field, an int32-keyed map of uint64, a UInt64Value wrapper, a nested message, a oneof member holding its default *)
+Example model_emit_instance :
+  option_map S.cv_of_aval (model_emit_accepts Ex.ex_sc Ex.ex_js 0 Ex.ex_obj) = Some (S.cv_of_aval Ex.ex_aval).
+Proof. vm_compute. reflexivity. Qed.
+Example model_accept_instance :
+  option_map S.cv_of_aval (model_reads_canonical Ex.ex_sc Ex.ex_js 0 (length builtin_classes) Ex.ex_aval) =
+  Some (S.cv_of_aval Ex.ex_aval).
+Proof. vm_compute. reflexivity. Qed.
+
+(* ---- K13: -0.0 in an implicit-presence double field: the model omits it, the canonical printer does not ---- *)
+Definition nz_name : list byte := [x78].
+Definition nz_sc : schema := mkS (builtin_classes ++ [mkC [plain_field nz_name 1 TDouble] 0]) [].
+Definition nz_js : S.jschema := S.mkJS [[S.mkJF nz_name nz_name (S.JScalar S.KDouble) S.Implicit None]] [].
+Definition nz_obj : obj := Obj (length builtin_classes) [PFloat (2 ^ 63)] true [] [].
+Definition nz_aval : S.aval := S.AMsg [S.FOne (S.AFloat (2 ^ 63))].
+
+Theorem neg_zero_refuted_thm :
+  scalar_in_range TDouble (PFloat (2 ^ 63)) = true /\
+  J.to_dict J.CAMEL false nz_sc nz_obj = J.JObj [] /\
+  S.json_spec nz_js 0 nz_aval = Some (S.JObj [(nz_name, S.JFloat (2 ^ 63))]) /\
+  model_emit_accepts nz_sc nz_js 0 nz_obj = Some (S.AMsg [S.FOne (S.AFloat 0)]) /\
+  S.AMsg [S.FOne (S.AFloat 0)] <> nz_aval.
+Proof. repeat split; try (vm_compute; reflexivity). intros E. inversion E. Qed.
